@@ -25,8 +25,18 @@ def transitions_oracle(history: list, pid: str = "C05") -> list[Violation]:
     out: list[Violation] = []
     state: dict = {}
     closed_seen: dict = {}
+    pending_fatal: dict = {}
     for ev in history:
         kind, d = ev[3], ev[4]
+        # a fatal error reported to the connection takes effect at once: the connection is CLOSED before the loop moves on
+        for c0, (turn0, what) in list(pending_fatal.items()):
+            if ev[1] > turn0:
+                del pending_fatal[c0]
+                if state.get(c0) != "CLOSED":
+                    out.append(Violation("fatal-error-not-closing", str(state.get(c0)), f"{c0}: fatal error {what} was reported at turn {turn0} but the connection is still {state.get(c0)} afterwards"))
+        if kind == "fatal" and d.get("conn") in state:
+            if state.get(d["conn"]) != "CLOSED":
+                pending_fatal.setdefault(d["conn"], (ev[1], d["err"]["cls"]))
         if kind == "state":
             c, old, new = d["conn"], d["old"], d["new"]
             if old is None:
@@ -47,6 +57,13 @@ def transitions_oracle(history: list, pid: str = "C05") -> list[Violation]:
         elif kind == "flag_mismatch":
             out.append(Violation("is-connected-flag", f"sample:{d['state']}:{d['value']}", f"{d['conn']}: sampled is_connected={d['value']} in state {d['state']}"))
     return out
+
+
+def _refusal(d: dict) -> bool:
+    """The call was refused by a precondition check (wrong state / already connected) and touched nothing."""
+    err = d.get("err") or {}
+    txt = (err.get("text") or "").lower()
+    return (err.get("cls") == "RuntimeError" and ("only be used once" in txt or "socket_opened state" in txt)) or "already connected" in txt or txt.startswith("harness:")
 
 
 def phase_return_oracle(history: list) -> list[Violation]:
@@ -71,6 +88,7 @@ def phase_return_oracle(history: list) -> list[Violation]:
             op = {"do": d["do"], "conn": None, "state_before": None}
             if d["do"] == "finish":
                 op["conn"] = last_conn_of_client[0]
+                op["state_at_start"] = conn_state.get(last_conn_of_client[0])
             open_ops[d["actor"]] = op
         elif kind == "op_end" and d["do"] in ("connect", "start", "finish") and d["actor"] in open_ops:
             op = open_ops.pop(d["actor"])
@@ -81,6 +99,9 @@ def phase_return_oracle(history: list) -> list[Violation]:
                     out.append(Violation("phase-return-after-close", f"{d['do']}", f"{d['do']}() returned normally although {c} had already been closed (state now {conn_state.get(c)})"))
                 elif conn_state.get(c) != want:
                     out.append(Violation("phase-return-state", f"{d['do']}:{conn_state.get(c)}", f"{d['do']}() returned normally with {c} in state {conn_state.get(c)}"))
+            elif not d.get("ok") and c is not None and not _refusal(d) and conn_state.get(c) != "CLOSED" and not (d["do"] == "finish" and op.get("state_at_start") == "CONNECTED"):
+                # one connect attempt per object: an attempt that failed has used the object up
+                out.append(Violation("failed-phase-not-closed", f"{d['do']}:{conn_state.get(c)}", f"{d['do']}() failed with {(d.get('err') or {}).get('cls')} but left {c} in state {conn_state.get(c)} (a second attempt on the object would be accepted)"))
     return out
 
 
@@ -114,6 +135,8 @@ def reuse_oracle(history: list) -> list[Violation]:
                 continue
             if op["illegal"] and d.get("ok"):
                 out.append(Violation("reuse-accepted", f"{op['do']}:{op['before']}", f"{op['do']} in state {op['before']} returned normally"))
+            if not op["illegal"] and not d.get("ok") and conn_state.get(op["conn"]) != "CLOSED":
+                out.append(Violation("failed-phase-not-closed", f"{op['do']}:{conn_state.get(op['conn'])}", f"{op['do']} failed with {(d.get('err') or {}).get('cls')} but left {op['conn']} in state {conn_state.get(op['conn'])}"))
             if not op["illegal"] and d.get("ok"):
                 c = op["conn"]
                 want = "SOCKET_OPENED" if op["do"] == "conn.start" else "CONNECTED"
@@ -158,8 +181,26 @@ class C05(CheckBase):
             # one connect per object: raw connection objects, repeated phase calls
             yield self._reuse_case(rng)
         else:
-            # fault-free
-            yield gen_session(rng)
+            scn = gen_session(rng)
+            r2 = rng.random()
+            if r2 < 0.3:
+                # an OS call on the freshly connected socket fails (peer reset right behind the accept)
+                scn["knobs"]["sock_fail"] = pick(rng, ["nodelay", "getpeername"])
+                scn["actors"][0]["steps"] += [{"do": "connect", "login": False}]
+            elif r2 < 0.6:
+                # a hung hello exchange, disconnect() whose 5 s grace for the running connect expires, then a fatal
+                # error while it waits for the DisconnectResponse: the error must close the connection at once
+                scn["device"]["replies"] = {"HelloRequest": ["silent"], "DisconnectRequest": ["silent"]}
+                scn["actors"] = [{"id": "a0", "at": {"t": 0.0}, "steps": [{"do": "connect", "login": rng.random() < 0.5}]}, {"id": "closer", "at": {"t": pick(rng, [0.5, 1.0])}, "steps": [{"do": "disconnect"}]}]
+                scn["events"] = []
+                t_f = pick(rng, [4.0, 6.5, 8.0, 12.0])
+                cause = pick(rng, ["fin", "rst", "garbage", "eio", "late_hello+garbage"])
+                if cause == "late_hello+garbage":
+                    noise = bool(scn["client"].get("noise_psk"))
+                    scn["events"].append({"at": {"t": t_f}, "do": "dev", "act": {"msgs": [["HelloResponse", {"api_version_major": 1, "api_version_minor": 10, "name": "simdev"}], ["ConnectResponse", {}], {"type": 10, "payload_hex": "0aff01", "name": "#bad_payload"}], "latency": 0.0}})
+                else:
+                    scn = with_cause(scn, cause, {"t": t_f}, "pre", rng)
+            yield scn
 
     def _reuse_case(self, rng: random.Random) -> dict:
         base = gen_session(rng, noise_p=0.2, max_addrs=1)
